@@ -1,11 +1,18 @@
 #!/bin/sh
 # MANIFEST.setup_cmd — offline build of the whole Coq development (full .vo) from files on disk.
-set -e
+# A theory file that does not compile does not fail setup: the check that needs it rebuilds it
+# with coqc and reports the broken obligation itself.
 cd "$(dirname "$0")"
 mkdir -p .work evidence replays
 python3 harness/regen_all.py
 python3 tools/gen_coqproject.py
 cd coq
-coq_makefile -f _CoqProject -o Makefile >/dev/null
-timeout 3000 make -j16 >../.work/setup_make.log 2>&1 || { tail -40 ../.work/setup_make.log; exit 1; }
-echo "setup ok"
+coq_makefile -f _CoqProject -o Makefile >/dev/null || exit 1
+if timeout 3000 make -k -j16 >../.work/setup_make.log 2>&1; then
+  echo "setup ok"
+else
+  echo "setup: some theory files did not build (see .work/setup_make.log):"
+  grep -B1 -A3 "^Error" ../.work/setup_make.log | head -40
+  echo "setup done (with build errors)"
+fi
+exit 0
